@@ -76,7 +76,8 @@ def generate(rng, tier):
         vals = [round(rng.uniform(0.0, 1.0), 3), round(rng.uniform(5.0, 30.0), 3), round(rng.uniform(-0.5, 0.5), 3),
                 round(rng.uniform(0.5, 2.0), 3), round(rng.uniform(-0.2, 0.2), 3)]
         kind = i % 5
-        cases.append({"kind": "fileflag", "mode": 1, "present": {k: 0 for k in KEYS}, "v": {"vals": vals, "kind": kind},
+        bad = ["bogus(Q)", "F(Q)", "Q", "DCS", "S", "FK", "s(q)", "S(Q)-1", "G(r)"][(i // 5) % 9]
+        cases.append({"kind": "fileflag", "mode": 1, "present": {k: 0 for k in KEYS}, "v": {"vals": vals, "kind": kind, "badname": bad},
                       "desc": {"kind": "fileflag", "function": (SL.KINDS + ["bogus(Q)"])[kind]}})
     n_cli = 14 if tier == "quick" else 60
     for i in range(n_cli):
@@ -271,7 +272,7 @@ def run_impl(pystog, case):
 
     if case["kind"] == "fileflag":
         vals, kind = case["v"]["vals"], case["v"]["kind"]
-        name = (SL.KINDS + ["bogus(Q)"])[kind]
+        name = (SL.KINDS + [case["v"].get("badname", "bogus(Q)")])[kind]
         args = pio.get_cli_parser().parse_args(["--density", "1.0", "-f", "x.dat"] + [repr(t) for t in vals] + [name])
         info = pio.parse_cli_args(args)["Files"][0]
         got = [info["Qmin"], info["Qmax"], info["Y"]["Offset"], info["Y"]["Scale"], info["X"]["Offset"]]
